@@ -589,12 +589,15 @@ class Exec:
         l = self.deref(l) if isinstance(l, Ref) else l
         r = self.deref(r) if isinstance(r, Ref) else r
         if op in ("<", "<=", ">", ">=", "==", "!="):
-            if not isinstance(l, T) or not isinstance(r, T):
-                raise Unsupported("comparison of non-numbers at line %s" % ln)
-            if tm.mentions(l, ("NAN",)) or tm.mentions(r, ("NAN",)):
-                return TRUE if op == "!=" else FALSE
-            return tm.cmp(op, l, r)
+            return self.compare(op, l, r, ln)
         return self.arith(op, l, r, ln)
+
+    def compare(self, op, l, r, ln):
+        if not isinstance(l, T) or not isinstance(r, T):
+            raise Unsupported("comparison of non-numbers at line %s" % ln)
+        if tm.mentions(l, ("NAN",)) or tm.mentions(r, ("NAN",)):
+            return TRUE if op == "!=" else FALSE     # IEEE: every comparison with NaN is false except !=
+        return tm.cmp(op, l, r)
 
     def e_assign(self, e, frame):
         v = self.expr(e["r"], frame)
@@ -727,7 +730,7 @@ class Exec:
                 b = self.expr(args[1], frame)
                 a = self.deref(a) if isinstance(a, Ref) else a
                 b = self.deref(b) if isinstance(b, Ref) else b
-                cond = a.eq(b) if name.endswith("_eq") else a.ne(b)
+                cond = self.compare("==" if name.endswith("_eq") else "!=", a, b, ln)
             else:
                 cond = self.expr(args[0], frame)
             if name.startswith("debug_"):
